@@ -22,7 +22,13 @@ public:
         std::ifstream is{path, std::ios::in | std::ios::binary | std::ios::ate};
         if(is)
         {
+            // a directory can be opened but has no meaningful size
+            std::error_code ec;
             const auto file_size = is.tellg();
+            if((file_size < 0) || std::filesystem::is_directory(path, ec))
+            {
+                throw_error("can't read file: `{}`", path);
+            }
             std::string data;
             data.resize(file_size);
             is.seekg(0);
